@@ -216,7 +216,7 @@ func c12b(c *Ctx) {
 		must := c.mustLits(fn, r.Block())
 		missing := false
 		for _, l := range must {
-			if (strings.HasPrefix(l, "-$0.compileSwitches[") && strings.HasSuffix(l, "#1")) || l == "+(builtin:len($0.compileSwitches) == 0)" {
+			if (strings.HasPrefix(l, "-$0.compileSwitches[") && strings.HasSuffix(l, "#1")) || l == "-(0 < builtin:len($0.compileSwitches))" {
 				missing = true
 			}
 		}
